@@ -225,8 +225,7 @@ def call_algorithm(case, sim, algo):
         if form == "schedule-lists":
             lo, hi = [0] * rt, [float("inf")] * rt
         else:
-            # integer zeros, as the Interface builds them (see TruncA in SortedAlgo.tla)
-            lo, hi = shared.setdefault(rt, (np.zeros(rt, dtype=int), np.full(rt, np.inf)))
+            lo, hi = shared.setdefault(rt, (np.zeros(rt), np.full(rt, np.inf)))
         hand.append(SessionInfo(x.station_id, x.session_id, x.requested_energy, x.energy_delivered, x.arrival,
                                 x.departure, x.estimated_departure, x.current_time, min_rates=lo, max_rates=hi))
     return algo.schedule(hand)
